@@ -19,6 +19,8 @@ CLAIMED['C18'] = ("Bounded symbolic model checking of every name-to-path computa
          "Trusted: go/ssa, symgo, z3, the os/filepath.Walk/zip stubs; symlinks, Windows paths and the api bridge are outside the claim.")
 CLAIMED['C12'] = ("Bounded symbolic model checking of the API permission gate (authenticateRequest, checkAuth, checkAPIKey, checkSessionCookie, getEffectiveMethod): declared and granted permissions range over all int8 values, credential sources over 8 scenarios with symbolic header bytes and a symbolic clock; oracle is a reference decision procedure in the harness; refusals must produce exactly one 401/403/404/405/500 reply.",
          "Trusted: go/ssa, symgo, z3; http.Header/Cookie/BasicAuth/rng/log stubs. mainHandler.handle (gorilla/mux, Origin/CORS), key-config parsing and server liveness are outside the claim.")
+CLAIMED['C19'] = ("Bounded symbolic model checking of updater version selection, blacklisting and purge: every combination of per-version flags and registry flags is symbolic, version order is chosen by the harness, the oracle is the documented cascade written as fork-free terms; purge obligations are checked on the recorded os.Remove trace (and on real files in the native replay).",
+         "Trusted: go/ssa, symgo, z3; semver parsing stub for numeric versions, os stubs. Real semver ordering, file-name round trip and downloads are outside the claim.")
 NA = {}
 def check(pid):
     text, note = CLAIMED[pid]
